@@ -15,6 +15,7 @@
   harness + round-trip oracle on the real code, but are not covered by these theorems.
 -/
 import TypedpyModel.Lemmas.RoundTrip
+import TypedpyModel.Lemmas.RoundTripX
 namespace Typedpy.C05
 open Typedpy
 
@@ -197,6 +198,80 @@ theorem class_round_trip_example :
     ∧ (match serialize exO exOuter exInst with
         | .ok j => isJson j && (match deserialize exO {} exOuter j with
             | .ok (.inst "Outer" [("n", .inst "Inner" [("a", .int 0)]), ("tag", .str ""), ("xs", .list [])]) => true
+            | _ => false)
+        | .error _ => false) = true := by
+  decide
+
+/-! ### the extension kinds (Sem/SerdeX.lean): DecimalNumber, Enum by value, DateField / DateTime -/
+
+/-- **C05 on the extension kinds (field level)** -/
+theorem xfield_round_trip_partial (XO : XOracles) (opts : DeserOpts) (x : XDecl) (v : PyVal)
+    (hf : xFrag XO x v = true) :
+    ∃ j, serX XO x v = .ok j ∧ isJson j = true
+      ∧ deserX XO opts false x j = .ok v ∧ validateX XO x v = .ok v := by
+  rcases xround_trip XO opts x v hf with ⟨j, h1, h2, _, h4, h5⟩
+  exact ⟨j, h1, h2, h4, h5⟩
+
+theorem xclass_round_trip_partial (XO : XOracles) (opts : DeserOpts) (c : ClassOpts)
+    (fields : List (String × XDecl)) (x : PyVal)
+    (hf : xFrag XO (.struct c fields) x = true) :
+    ∃ j, serializeX XO (.struct c fields) x = .ok j ∧ isJson j = true
+      ∧ deserializeX XO opts (.struct c fields) j = .ok x := by
+  rcases xround_trip XO opts (.struct c fields) x hf with ⟨j, h1, h2, _, h4, _⟩
+  have hj : ∃ r, j = .dict r := by
+    simp only [xFrag, and_true_iff] at hf
+    cases x with
+    | inst n attrs =>
+      simp only [serX, sInst] at h1
+      split at h1
+      · cases h1
+      · rcases bindE_eq_ok h1 with ⟨r, _, hr⟩
+        exact ⟨r, by cases hr; rfl⟩
+    | _ => simp at hf
+  rcases hj with ⟨r, rfl⟩
+  exact ⟨.dict r, h1, h2, by simpa [deserializeX] using h4⟩
+
+/-- the serialized form of a Decimal is `float(d)` and comes back as the Decimal of that float: the
+    round trip returns an equal value exactly when the Decimal is a double (the lossy clause) -/
+theorem decimal_round_trip_lossy (XO : XOracles) (opts : DeserOpts) (o : NumOpts) (q : Q) :
+    serX XO (.decimal o) (.dec q) = .ok (.float (XO.toFloat q))
+    ∧ deserX XO opts false (.decimal o) (.float (XO.toFloat q)) = .ok (.dec (XO.toFloat q)) := by
+  constructor
+  · simp [serX, sDecimal]
+  · simp [deserX, PyVal.isNone, dDecimal, xConvDecimal, PyVal.asNum]
+
+def exXO : XOracles :=
+  { base := exO, toFloat := fun q => q,
+    parse := fun _ _ s => if s == "2020-01-31" then some "date:2020-01-31" else none,
+    format := fun _ _ _ => "2020-01-31",
+    typeOf := fun t => if t == "date:2020-01-31" then "date" else "?" }
+
+def exLevel : XDecl := .enumVal "Level" [("OFF", .int 0), ("LOW", .int 1), ("HIGH", .int 2)] true
+
+/-- `Task(priority: Enum[Level] by value, due: Optional[DateField], amounts: Array[DecimalNumber(min 0)],
+    tags: Map[String, Optional[Enum by value]])` -/
+def exTask : XDecl :=
+  .struct { name := "Task", required := ["priority"], accepts := ["Task"] }
+    [("priority", exLevel), ("due", .opt (.temporal "date" "%Y-%m-%d" false)),
+     ("amounts", .seqOf .list (.decimal { min := some ⟨0, 1⟩ })),
+     ("tags", .mapStr (.opt exLevel))]
+def exTaskInst : PyVal :=
+  .inst "Task" [("priority", .enumv "Level" "OFF"), ("due", .opaque "date:2020-01-31"),
+                ("amounts", .list [.dec ⟨0, 1⟩, .dec ⟨3, 2⟩]),
+                ("tags", .dict [(.str "a", .enumv "Level" "OFF"), (.str "", .none)])]
+
+/-- non-vacuity: a falsy member (IntEnum 0), a date, Decimals and an Optional enum inside a Map -/
+theorem xclass_round_trip_example :
+    xFrag exXO exTask exTaskInst = true
+    ∧ (match serializeX exXO exTask exTaskInst with
+        | .ok (.dict [(.str "priority", .int 0), (.str "due", .str "2020-01-31"),
+                      (.str "amounts", .list [.float ⟨0, 1⟩, .float ⟨3, 2⟩]),
+                      (.str "tags", .dict [(.str "a", .int 0), (.str "", .none)])]) => true
+        | _ => false) = true
+    ∧ (match serializeX exXO exTask exTaskInst with
+        | .ok j => (match deserializeX exXO {} exTask j with
+            | .ok (.inst "Task" [("priority", .enumv "Level" "OFF"), ("due", .opaque "date:2020-01-31"),
+                ("amounts", .list [.dec _, .dec _]), ("tags", .dict [(.str "a", .enumv "Level" "OFF"), (.str "", .none)])]) => true
             | _ => false)
         | .error _ => false) = true := by
   decide
